@@ -15,7 +15,7 @@ use std::collections::VecDeque;
 
 pub struct C17;
 
-const ALPHA: [&str; 12] = ["1", "9", "-", "+", ".", "E", "&", "H", "\"", ",", " ", "x"];
+const ALPHA: [&str; 13] = ["1", "9", "-", "+", ".", "E", "&", "H", "\"", ",", " ", "x", "é"];
 
 fn v(n: &str) -> LVal {
     LVal::Var(n.into())
@@ -194,7 +194,7 @@ impl Check for C17 {
     fn meta(&self, tier: Tier) -> Meta {
         Meta {
             bound: format!(
-                "25 INPUT statements (no prompt / prompt / leading comma x variable lists A | A% | A# | A$ | A,B$ | A$,B | A%,A$,A# | I,D(I), plus a leading-comma-with-prompt form) x every reply of length <={} over {{1 9 - + . E & H \" , blank x}}, plus 33 hand-picked replies (quoted commas, blanks, suffixes, radix forms, NAN/inf, out-of-range numbers) and over-long replies (300, 1025, 1201 bytes); each inside FOR K=1 TO 2 .. NEXT with the values of all targets printed after the statement; a rejected reply is followed by a known-good one",
+                "25 INPUT statements (no prompt / prompt / leading comma x variable lists A | A% | A# | A$ | A,B$ | A$,B | A%,A$,A# | I,D(I), plus a leading-comma-with-prompt form) x every reply of length <={} over {{1 9 - + . E & H \" , blank x é}}, plus 33 hand-picked replies (quoted commas, blanks, suffixes, radix forms, NAN/inf, out-of-range numbers) and over-long replies (300, 1025, 1201 bytes); each inside FOR K=1 TO 2 .. NEXT with the values of all targets printed after the statement; a rejected reply is followed by a known-good one",
                 tier.pick(4, 5)
             ),
             rule: "a case is (INPUT statement, reply script); compared: prompts with capitalisation flag, REDO FROM START events, printed values of all variables, loop completion; distinct_nontrivial = distinct expected transcripts".into(),
